@@ -10,5 +10,5 @@ Theorem ccm_restores_app :
   b_enc b = [(h_start c + h_ivt_off c + c_app_off c, hlen (c_app_bin c))] /\
   ccm_decrypt (aes_enc (h_dek c)) (b_nonce b) [] (Z.to_nat (h_mac_len c))
               (hslice (b_image b) (c_app_off c) (c_app_off c + hlen (c_app_bin c)) ++ b_mac b) = Some (c_app_bin c).
-Proof. exact ccm_restores. Qed.
+Proof. exact ccm_restores'. Qed.
 Print Assumptions ccm_restores_app.
